@@ -146,17 +146,29 @@ def finiV (closes : Bool) (cf : ModeCfg) (st : MState) : MState × List Ev :=
   if st.finished then (st, [])
   else ({ (disengageV closes cf st).1 with finished := true }, (disengageV closes cf st).2 ++ [.call .close])
 
+/-- THE SWITCH for the resize repair: `false` = pinned tree, `true` once fixes/C04-resize-after-resume.patch is committed -/
+def currentResizeChecksCells : Bool := false
+
+/-- `resize()` repaired (fixes/C04-resize-after-resume.patch) also compares the size of the cell buffer, which engage
+    re-creates from the tty without updating `t.w`/`t.h`: when the buffer disagrees with `t.w`/`t.h` the resize is carried
+    out even if the tty reports `t.w`×`t.h`.  Modelled by making `t.w` differ from the tty width, which sends
+    `Scr.resize` down its resizing branch (whose result does not depend on the old `t.w`).
+    The pinned code (switch off) has no such test: there Show/Sync on such a screen loop forever when the buffer is smaller
+    than `t.w`×`t.h` (known finding C04-show-hang-after-resume), which the fuelled draw loops of the model do not show. -/
+def fixW (on : Bool) (wd : ScrW) : ScrW :=
+  if on ∧ (wd.s.cells.w ≠ wd.s.w ∨ wd.s.cells.h ≠ wd.s.h) then { wd with s := { wd.s with w := wd.ttyw + 1 } } else wd
+
 /-- the draw API; Show and Sync do nothing (but Sync forgets the cursor) unless running (tscreen.go:1028, 1938) -/
 def scrStep (cf : ModeCfg) (st : MState) (op : ScrOp) : MState × List Ev :=
   match op with
   | .show =>
     if st.running then
-      let r := st.wd.step cf.dc .show
+      let r := (fixW currentResizeChecksCells st.wd).step cf.dc .show
       ({ st with wd := r.1 }, [.call .windowSize, .frame r.2])
     else (st, [])
   | .sync =>
     if st.running then
-      let r := st.wd.step cf.dc .sync
+      let r := (fixW currentResizeChecksCells st.wd).step cf.dc .sync
       ({ st with wd := r.1 }, [.call .windowSize, .frame r.2])
     else ({ st with wd := { st.wd with s := st.wd.s.forgetCursor } }, [])
   | .ttyResizeNotify _ _ => (st, [])      -- needs mainLoop: not part of the mode histories
